@@ -416,7 +416,7 @@ pub fn property() -> Property {
         rule: RULE,
         phases: vec![
             Phase::Enum { name: "all raw deflate byte strings of length <= 2 (quick) / <= 3 (thorough)", f: enumerate, replay: enum_replay },
-            Phase::Prop { name: "generated streams x decoder modes", f: case, quick: 80_000, thorough: 2_000_000, max_tape: 220 },
+            Phase::Prop { name: "generated streams x decoder modes", f: case, quick: 400_000, thorough: 4_000_000, max_tape: 300 },
         ],
     }
 }
